@@ -715,8 +715,8 @@ func (u *Unmarshaler) processFieldWithEnvValue(fieldType reflect.Type, value ref
 	maybeNewValue(fieldType, value)
 
 	fieldKind := fieldType.Kind()
-	switch fieldKind {
-	case reflect.Bool:
+	switch {
+	case fieldKind == reflect.Bool:
 		val, err := strconv.ParseBool(envVal)
 		if err != nil {
 			return fmt.Errorf("用环境变量解组字段 %q 出错，%w", fullName, err)
@@ -724,13 +724,14 @@ func (u *Unmarshaler) processFieldWithEnvValue(fieldType reflect.Type, value ref
 
 		value.SetBool(val)
 		return nil
-	case durationType.Kind():
+	case Deref(fieldType) == durationType:
+		// 按类型而不是 Kind 判断：durationType.Kind() 就是 int64，普通 int64 字段不应按时长解析。
 		if err := fillDurationValue(fieldKind, value, envVal); err != nil {
 			return fmt.Errorf("用环境变量解组字段 %q 出错，%w", fullName, err)
 		}
 
 		return nil
-	case reflect.String:
+	case fieldKind == reflect.String:
 		value.SetString(envVal)
 		return nil
 	default:
